@@ -439,7 +439,7 @@ fn repeat_iterable(n: &Value, seq: &DynObject) -> Result<Value, Error> {
             ));
         }
         let mut values = Vec::with_capacity(total);
-        for _ in 0..n {
+        while values.len() < total {
             values.extend(tuple.iter().cloned());
         }
         return Ok(Value::from(Tuple::from(values)));
